@@ -107,15 +107,40 @@ def run(module: str, cfg: Optional[str] = None, *, workers: int = 1, env: Option
     if env:
         e.update({k: str(v) for k, v in env.items()})
     t0 = time.time()
+    # TLC's output goes to a file and is read line by line: a simulation run prints millions of CASE lines (one per candidate successor), far
+    # more than fit in memory as parsed objects; identical CASE lines are the same case and are kept once, in order of first appearance.
+    logf = meta / "tlc.out"
     try:
-        p = subprocess.run(cmd, cwd=str(mod.parent), env=e, capture_output=True, text=True, timeout=timeout)
-        out, rc = p.stdout + p.stderr, p.returncode
-    except subprocess.TimeoutExpired as ex:
-        out = (ex.stdout or b"").decode(errors="replace") if isinstance(ex.stdout, bytes) else (ex.stdout or "")
-        rc = 124
+        with open(logf, "w") as fh:
+            try:
+                rc = subprocess.run(cmd, cwd=str(mod.parent), env=e, stdout=fh, stderr=subprocess.STDOUT, timeout=timeout).returncode
+            except subprocess.TimeoutExpired:
+                rc = 124
+        res = TlcResult(rc=rc, out="", wall_s=time.time() - t0)
+        other = []
+        raw_cases = {}
+        with open(logf, errors="replace") as fh:
+            for line in fh:
+                if line.startswith('<<"CASE"'):
+                    m = _CASE.match(line)
+                    if m:
+                        raw_cases.setdefault(m.group(1), None)
+                        continue
+                elif line.startswith('<<"VERDICT"'):
+                    m = _VERDICT.match(line)
+                    if m:
+                        res.verdicts.append((int(m.group(1)), m.group(2) == "TRUE", _unescape(m.group(3))))
+                        continue
+                elif line.startswith('<<"COVER"'):
+                    m = _COVER.match(line)
+                    if m:
+                        res.cover[m.group(1)] = res.cover.get(m.group(1), 0) + int(m.group(2))
+                        continue
+                other.append(line)
     finally:
         shutil.rmtree(meta, ignore_errors=True)
-    res = TlcResult(rc=rc, out=out, wall_s=time.time() - t0)
+    out = res.out = "".join(other)
+    del other
     m = None
     for m in _STATS.finditer(out):
         pass
@@ -124,14 +149,12 @@ def run(module: str, cfg: Optional[str] = None, *, workers: int = 1, env: Option
     m = _DEPTH.search(out)
     if m:
         res.depth = int(m.group(1))
-    res.verdicts = [(int(a), b == "TRUE", _unescape(c)) for a, b, c in _VERDICT.findall(out)]
-    for c in _CASE.findall(out):
+    for c in raw_cases:
         try:
             res.cases.append(json.loads(_unescape(c)))
         except Exception as ex:  # pragma: no cover
             raise TlcError(f"unparsable CASE line: {c[:200]} ({ex})")
-    for n, k in _COVER.findall(out):
-        res.cover[n] = res.cover.get(n, 0) + int(k)
+    del raw_cases
     m = _INV.search(out) or _APROP.search(out)
     if m:
         res.invariant_violated = m.group(1)
